@@ -139,3 +139,6 @@ if os.environ.get("VERIF_MCREW_STANDALONE") == "1":
     PROPS["C14_mcrew"] = dict(level="proof", rule=ROUTE_RULE, trusted=MCREW_TRUSTED,
                               assumptions=["all machines of a routing case run the recorder specification"],
                               runs=EXTRA_RUNS["C14"])
+
+EXTRA_PROPERTY_FILES = {"C14": ["C14_mcrew"]}
+EXTRA_TRUSTED = {"C14": MCREW_TRUSTED}
